@@ -140,9 +140,10 @@ func runPex(c *sim.Ctx) {
 	}
 	// A custom peers file is loaded without any bound at every start; together with a full list it
 	// pushes the list over its maximum, after which a reload keeps a random Max-subset and may fail to
-	// re-add a trusted default ("Peer list full").  The statement bounds bulk additions only, so the
-	// custom file stays out of the workload (recorded in DESIGN.md as an observation, not a finding).
-	if false && t.Chance("custom-peers-file", 1, 5) {
+	// re-add a trusted default ("Peer list full"; recorded in DESIGN.md as an observation, not a finding:
+	// the statement bounds bulk additions only).  So runs with a custom file never reload; what they are
+	// for is the list that is already above its maximum when a bulk addition arrives.
+	if t.Chance("custom-peers-file", 1, 5) {
 		fn := filepath.Join(dir, "custom.txt")
 		var lines []string
 		for i := 0; i < 1+t.Int("custom-n", 3); i++ {
@@ -282,6 +283,9 @@ func runPex(c *sim.Ctx) {
 			c.Logf("+%v", d)
 			check(fmt.Sprintf("%v of simulated time", d), false, before)
 		case 6: // shutdown and reload from the peers file
+			if cfg.CustomPeersFile != "" {
+				continue // (see above)
+			}
 			px.Shutdown()
 			px = nil
 			corrupted := false
